@@ -294,6 +294,7 @@ c02 = pool_prop(
     "incl. non-hosts and peers sharing the client's wallet, reconnects between updates); every balance and the balance "
     "in every update reply must equal the model's floor(elapsed*price/interval) per active peer",
     lambda tier: [("VipStoreMC", "VipStoreMC_bal.cfg")] + ([("VipPoolMC", "VipPoolMC_bill_q.cfg")] if tier == "quick" else [("VipPoolMC", "VipPoolMC_bill.cfg")]),
+    cfg=dict(longsleep=True),
     weights=dict(update=50, sleep=20, forged=2, withdraw=1, peer=4, close=1, reopen=1, mode=1, stale=1, addnode=6, reconnect=6),
     extra_jobs=lambda s, tier, work: stack_jobs("c02", "C02", s, tier, work))
 
@@ -302,7 +303,7 @@ c03 = pool_prop(
     "seeded sessions with a minimum balance of -50/0/40, deposits and credits around it; compared: which connects and "
     "keep-alives are refused for balance, the reported balance, the disconnect instructions sent to hosts",
     lambda tier: [("VipStoreMC", "VipStoreMC_bal.cfg")] + ([("VipPoolMC", "VipPoolMC_bill_q.cfg")] if tier == "quick" else [("VipPoolMC", "VipPoolMC_bill.cfg")]),
-    cfg=dict(minbal=None),
+    cfg=dict(minbal=None, staircase=True),
     weights=dict(update=40, sleep=14, deposit=8, credit=8, addnode=8, reconnect=10, client=3, forged=2))
 
 c04 = pool_prop(
